@@ -307,13 +307,21 @@ def run_x5(chk, repo):
         return [unparse(v.value) for v in js.values if isinstance(v, ast.FormattedValue)][:1]
     created = set()
     for a0 in ast.walk(f.node):
-        if isinstance(a0, ast.Assign) and isinstance(a0.targets[0], ast.Subscript) and isinstance(a0.value, ast.Call) \
-                and (dotted(a0.value.func) or '').endswith('Symbol') and a0.value.args \
-                and isinstance(a0.value.args[0], ast.JoinedStr):
-            created |= set(stems(a0.value.args[0]))
+        if isinstance(a0, ast.Assign) and isinstance(a0.targets[0], ast.Subscript):
+            nid0 = reach.node_of(cfg, a0)
+            v0 = reach.expand_expr(cfg, nid0, a0.value) if nid0 is not None else a0.value
+            if isinstance(v0, ast.Call) and (dotted(v0.func) or '').endswith('Symbol') and v0.args \
+                    and isinstance(v0.args[0], ast.JoinedStr):
+                created |= set(stems(v0.args[0]))
     searched = []
-    for c in [c for c in ast.walk(f.node) if isinstance(c, ast.Call)]:
-        d = dotted(c.func) or ''
+    for c0 in [c for c in ast.walk(f.node) if isinstance(c, ast.Call)]:
+        d = dotted(c0.func) or ''
+        if not (d.startswith('re.') or d.split('.')[-1] == 'create_symbol'):
+            continue
+        nidc = reach.node_containing(cfg, c0)
+        c = reach.expand_expr(cfg, nidc, c0) if nidc is not None else c0
+        if not isinstance(c, ast.Call):
+            c = c0
         if d.startswith('re.') and c.args and isinstance(c.args[0], ast.JoinedStr):
             searched += [(c, s_) for s_ in stems(c.args[0])]
         elif d.split('.')[-1] == 'create_symbol' and len(c.args) >= 2:
